@@ -47,7 +47,7 @@ func loadEngine(repo string, cfg BuildConfig, contractDir string) (*Engine, erro
 	}
 	prog, spkgs := ssautil.AllPackages(pkgs, ssa.InstantiateGenerics|ssa.GlobalDebug)
 	prog.Build()
-	en := &Engine{prog: prog, pkgs: map[string]*ssa.Package{}, contracts: map[string]*PkgContracts{}, globals: map[*ssa.Global]*Region{}, globalInit: map[*ssa.Global]Cell{}, oblSeq: map[string]int{}, cfgName: cfg.Name, maxSteps: 4000000, maxPaths: 20000, inlineDepthMax: 12, sideBatch: 24, debugNames: map[ssa.Value]string{}, externCalls: map[string]bool{},
+	en := &Engine{prog: prog, pkgs: map[string]*ssa.Package{}, contracts: map[string]*PkgContracts{}, globals: map[*ssa.Global]*Region{}, globalInit: map[*ssa.Global]Cell{}, oblSeq: map[string]int{}, cfgName: cfg.Name, maxSteps: 4000000, maxPaths: 20000, inlineDepthMax: 12, sideBatch: 24, debugNames: map[ssa.Value]string{}, externCalls: map[string]bool{}, usedAxioms: map[string]bool{}, unsafeUses: map[string]bool{}, missingAnchors: map[string]bool{},
 		forceInline: map[string]bool{}, inlined: map[string]bool{}, usedContracts: map[string]bool{}, assumedUsed: map[string]bool{}, usedLoops: map[string]bool{}, loopHdrCache: map[*ssa.Function]map[int]int{}, callOrdCache: map[*ssa.Function]map[ssa.Instruction]int{}, usedCuts: map[string]bool{}, anchorCache: map[*ssa.Function]*cutAnchorSet{}}
 	for _, p := range spkgs {
 		if p != nil {
@@ -133,6 +133,15 @@ func discharge(o *Obligation, timeout time.Duration) (r OblResult) {
 		r.Verdict, r.Backend = "proved", "trivial"
 		return r
 	}
+	if dec, holds, why := groundDecide(o.Goal); dec {
+		r.Backend, r.Info = "ground", why
+		if holds {
+			r.Verdict = "proved"
+		} else {
+			r.Verdict = "failed"
+		}
+		return r
+	}
 	{
 		if _, _, isC := asCongruence(o.Goal); isC || (o.Alg && o.Goal.op == OAnd) {
 			ok, why := AlgProve(o.Facts, o.Goal)
@@ -153,6 +162,27 @@ func discharge(o *Obligation, timeout time.Duration) (r OblResult) {
 			return r
 		} else if os.Getenv("GOVC_DEBUG") != "" {
 			r.Info += "lin: " + why + " "
+		}
+	}
+	// ground instances of the group axioms this function uses (derived facts)
+	if len(o.Uses) > 0 && o.Goal.sort == SBool {
+		if der := instantiateGroupAxioms(o.Facts, o.Uses, gD, gP); len(der) > 0 {
+			o = &Obligation{Name: o.Name, Kind: o.Kind, Func: o.Func, Facts: append(append([]*Term(nil), o.Facts...), der...), Goal: o.Goal, Detail: o.Detail, Pos: o.Pos, Uses: o.Uses, Axioms: o.Axioms}
+			r.Info += fmt.Sprintf("%d ground instances of group axioms; ", len(der))
+			if os.Getenv("GOVC_DEBUG") != "" {
+				for _, d := range der[max(0, len(der)-6):] {
+					fmt.Fprintf(os.Stderr, "ginst: %s\n", d.str(2))
+				}
+				fmt.Fprintf(os.Stderr, "ginst goal: %s\n", o.Goal.str(2))
+			}
+		}
+	}
+	// quantified axioms slow every query down and are rarely needed: try without them first
+	if qf := quantifierFree(o.Facts); len(qf) < len(o.Facts) {
+		qa := &Query{Facts: qf, Goal: o.Goal, AbstractNL: true}
+		if sa := Solve(qa, timeout/4+time.Second, false, nil); sa.Verdict == "unsat" {
+			r.Verdict, r.Backend, r.Script = "proved", sa.Solver+"(qf,nl-abstracted)", sa.Script
+			return r
 		}
 	}
 	// first with nonlinear products abstracted to fresh integers (sound for validity, much easier),
@@ -391,4 +421,39 @@ func hasNonlinear(facts []*Term, goal *Term) bool {
 		rec(goal)
 	}
 	return found
+}
+
+func quantifierFree(facts []*Term) []*Term {
+	memo := map[int]bool{}
+	var has func(t *Term) bool
+	has = func(t *Term) bool {
+		if v, ok := memo[t.id]; ok {
+			return v
+		}
+		r := t.op == OForall
+		for _, a := range t.args {
+			if r {
+				break
+			}
+			if has(a) {
+				r = true
+			}
+		}
+		memo[t.id] = r
+		return r
+	}
+	var out []*Term
+	for _, f := range facts {
+		if !has(f) {
+			out = append(out, f)
+		}
+	}
+	return out
+}
+
+func max(a, b int) int {
+	if a > b {
+		return a
+	}
+	return b
 }
